@@ -1,5 +1,6 @@
 import Capella.Lemmas.Index
 import Capella.Lemmas.IndexApi
+import Capella.Lemmas.AccessorProps
 
 /-!
 # C04 — UUIDs stay unique at load, creation and save; failed creation leaves no trace
@@ -120,5 +121,34 @@ example :
     let f1 : Frag := { name := "a", semantic := true, ignDups := false, tree := [], idc := [("x", some 1)], xtc := [], hrefs := [] }
     let f2 : Frag := { name := "b", semantic := true, ignDups := false, tree := [], idc := [("x", some 2)], xtc := [], hrefs := [] }
     hasCrossDups [f1, f2] = true ∧ hasCrossDupsOld [f1, f2] = false := by decide
+
+/-! ### creation through the accessors (`Model/Accessor.lean`) -/
+section Accessor
+open Capella.Accessor Capella.AccTable
+
+/-- UUIDs stay model-wide unique (and every index right) over every session of API calls — creations with drawn or
+requested ids, nested creations, failing creations, link elements, moves, deletions — with no side condition on the
+arguments: the freshness of a new id is established by `generate_uuid` itself against the indexes. -/
+theorem api_session_keeps_ids_unique (t : Tables) (cs : List (Call × List String × List Nat)) (s : State)
+    (h : IxInv s.ix) : (allIds (apiRun t cs s).ix).Nodup :=
+  (apiRun_ixinv t cs s h).inv.ids
+
+/-- A creation whose type hint matches no class, several classes, or that lacks a needed hint, fails with that
+error before anything is reserved, appended or indexed: every tree, every index and the set of detached elements are
+exactly as before. -/
+theorem creation_with_bad_type_leaves_no_trace (fuel : Nat) (t : Tables) (row : ARow) (parent : Nat)
+    (xmltag hint : Option String) (kw : List (String × Slot × KwVal)) (s : State) (e : Capella.Accessor.Err)
+    (h : (resolveXtype t row hint s).val = .error e) :
+    (accCreate fuel t row parent xmltag hint kw s).val = .error e ∧
+    Same s (accCreate fuel t row parent xmltag hint kw s).st :=
+  accCreate_bad_type fuel t row parent xmltag hint kw s e h
+
+end Accessor
+
+-- Non-vacuity: an unknown type hint is such a failing creation.
+example : (match (Capella.Accessor.resolveXtype ⟨[], []⟩
+      ⟨"C", "members", .directProxyAccessor, true, true, 0, false, ["T"], none, none, none, [], false, none, [], none, []⟩
+      (some "NoSuchClass") { frags := [], ix := [] }).val with
+    | .error .valueError => true | _ => false) = true := by decide +kernel
 
 end Capella.Props.C04
